@@ -957,7 +957,21 @@ pub(crate) fn json_session(interrupted: Arc<AtomicBool>) {
         }
 
         if let Some(length_str) = line.trim().strip_prefix("Content-Length: ") {
-            let length: usize = length_str.parse().expect("TODO: handle malformed length");
+            let Ok(length) = length_str.parse::<usize>() else {
+                let err_response = Response {
+                    kind: ResponseKind::MalformedRequest {
+                        message: format!(
+                            "Invalid request (malformed Content-Length header). The header received was:\n\n{}",
+                            line,
+                        ),
+                    },
+                    position: None,
+                    id: None,
+                };
+
+                print_as_json(&err_response, pretty_print_json);
+                continue;
+            };
 
             let mut buf = vec![0; length];
             stdin
@@ -965,7 +979,9 @@ pub(crate) fn json_session(interrupted: Arc<AtomicBool>) {
                 .read_exact(&mut buf)
                 .expect("Could not read payload");
 
-            let buf_str = String::from_utf8(buf).unwrap();
+            // Invalid UTF-8 must not kill the session: decode lossily
+            // and let the request parser judge the result.
+            let buf_str = String::from_utf8_lossy(&buf).into_owned();
 
             handle_request(
                 &buf_str,
